@@ -16,6 +16,9 @@ const (
 
 func Num(n int64) Term {
 	if n < 0 {
+		if n == -9223372036854775808 {
+			return "(- 9223372036854775808)"
+		}
 		return fmt.Sprintf("(- %d)", -n)
 	}
 	return fmt.Sprintf("%d", n)
